@@ -116,7 +116,10 @@ Checks ==
      ty \in {<<>>, <<"int">>, <<"int", "str">>},
      inst \in {<<>>, <<"int">>, <<"str", "dict">>},
      vals \in {<< <<>>, FALSE >>, << <<VInt(1)>>, FALSE >>, << <<VInt(1), A>>, TRUE >>, << <<A>>, TRUE >>},
-     validate \in {<<>>, <<Yes>>, <<No>>, <<PPred("zero", 0)>>, <<Boom>>, <<Yes, No>>, <<Truthy, Yes>>}}
+     \* (validators returning True / False / 0, raising ValueError, and -- depending on the target --
+     \* ZeroDivisionError / TypeError (1 / x > 0) or IndexError / KeyError / TypeError (x[0] == 'a'))
+     validate \in {<<>>, <<Yes>>, <<No>>, <<PPred("zero", 0)>>, <<Boom>>, <<Yes, No>>, <<Truthy, Yes>>,
+                   <<PPred("recip", 0)>>, <<PPred("head", 0)>>}}
 
 \* hardening: falsy-but-meaningful values as targets, sub-results and defaults (None included, as
 \* an ordinary value), falsy / subclassed containers, values with a hostile ==, and the boundary
@@ -134,7 +137,11 @@ HardChecks ==
    PCheck(<<"dict">>, <<>>, <<>>, FALSE, <<>>, FALSE, NoDef), PCheck(<<>>, <<"dict", "tuple">>, <<>>, FALSE, <<>>, FALSE, NoDef),
    PCheck(<<>>, <<>>, <<>>, FALSE, <<Truthy>>, FALSE, NoDef), PCheckS(<<A>>, "list", <<>>, <<>>, <<>>, FALSE, <<>>, FALSE, NoDef)} \cup
   {PCheck(<<"str">>, <<>>, <<>>, FALSE, <<>>, TRUE, d) : d \in FalsyValues} \cup
-  {PCheck(<<>>, <<>>, <<>>, FALSE, <<No>>, TRUE, d) : d \in {VNone, VInt(0)}}
+  {PCheck(<<>>, <<>>, <<>>, FALSE, <<No>>, TRUE, d) : d \in {VNone, VInt(0)}} \cup
+  \* whatever a validator raises is a failed condition
+  {PCheck(<<>>, <<>>, <<>>, FALSE, <<v>>, df[1], df[2]) :
+     v \in {PPred("boom_attr", 0), PPred("recip", 0), PPred("head", 0)}, df \in {<<FALSE, NoDef>>, <<TRUE, VInt(0)>>}} \cup
+  {POr(<<PCheck(<<>>, <<>>, <<>>, FALSE, <<PPred("recip", 0)>>, FALSE, NoDef), PVal(VInt(7))>>, "ctor", FALSE, NoDef)}
 HardSpecs ==
   HardChecks \cup
   {PMTruthy, PNot(PMTruthy, "ctor"), PNot(PMTruthy, "op"), PM("==", VInt(1)), PM("!=", VInt(1)), PMR("==", VInt(1)), PM("==", VInt(0)),
@@ -223,6 +230,10 @@ Fragment == mode = "ctor" \/ (InFragment("auto", Root) /\ StrsOK(target))
 CtorLaw == phase = 2 /\ mode = "ctor" /\ spec.op = "wrap" /\ spec.key.op # "wrap" =>
              LET other == PWrap(IF spec.kind = "optional" THEN "required" ELSE "optional", spec.key) IN
              (pred.ctor = "ok") # (Constructs(other) = "ok")
+\* whatever a validator of a Check raises is a failed condition (CheckError or the default), never
+\* an error of its own: only the == of equal_to / one_of itself may raise through a Check
+CheckContains == Case /\ spec.op = "check" /\ TGet(target, spec.sub, 1).ok
+                      /\ (\A i \in 1..Len(spec.vals) : ~EqRaises(TGet(target, spec.sub, 1).v, spec.vals[i])) => ~Foreign(O)
 \* specs carry no memory: evaluated again, a spec object decides like a fresh one
 HistoryFree == phase = 3 => Undumped(pred2) = Ev("auto", target2, Root)
 \* a comparison Python itself refuses is not a rejection: its TypeError comes out unchanged
